@@ -15,7 +15,7 @@ pub fn property() -> Property {
     Property {
         id: "C03",
         level: "exploration",
-        rule: "family `frame`: one frame (11 encodable commands x boundary stream ids x boundary/random payload lengths incl. attempted lengths > 65535) encoded by the real FrameCodec, compared byte-for-byte with the reference encoder and decoded back; family `stream`: a byte stream (reference-encoded frames with any of the 256 command bytes, optionally followed by an incomplete frame, or arbitrary bytes) fed to the real decoder in generated pieces and compared with the reference parse of the whole. Non-trivial = (>= 2 frames and a cut strictly inside a header or payload) or a payload length in {0, 65535, > 65535} or a command byte > 10. Distinct = distinct serialized case. Multi-frame streams draw payload lengths from the whole 0..65535 range (classes 0-8, 9-64, 254-257, 1000-3000, 3001-9000, 16380-16390, 9001-65529, 65530-65535), so cuts inside large payloads are generated; byte-at-a-time delivery of streams above 4 KiB uses about 2048 equal pieces.",
+        rule: "family `frame`: one frame (11 encodable commands x boundary stream ids x boundary/random payload lengths incl. attempted lengths > 65535) encoded by the real FrameCodec, compared byte-for-byte with the reference encoder and decoded back; family `stream`: a byte stream (reference-encoded frames with any of the 256 command bytes, optionally followed by an incomplete frame, or arbitrary bytes) fed to the real decoder in generated pieces and compared with the reference parse of the whole. Non-trivial = (>= 2 frames and a cut strictly inside a header or payload) or a payload length in {0, 65535, > 65535} or a command byte > 10. Distinct = distinct serialized case. Multi-frame streams draw payload lengths from the whole 0..65535 range (classes 0-8, 9-64, 254-257, 1000-3000, 3001-9000, 16380-16390, 9001-65529, 65530-65535), so cuts inside large payloads are generated; byte-at-a-time delivery of streams above 4 KiB uses about 2048 equal pieces. For payloads above 65535 bytes a refusal must leave the output buffer as it was (tried with an empty buffer and with one that already holds two bytes).",
         assumptions: vec![
             "reference codec (harness/src/reference/codec.rs) written from the protocol description",
             "bytes::BytesMut / tokio_util codec traits",
